@@ -366,6 +366,106 @@ def ev_bag(prog, leaves, marker_sort=None, memo=None, stats=None):
     return res
 
 
+def ev_multi(prog, leaves, marker_sort=None, memo=None, stats=None):
+    """Direct evaluation of a multi-engine program with order/determinacy labels.
+
+    Nodes living in the SQL engine (index 0) follow the bag rules of `ev_bag`; nodes living in an iteration engine
+    preserve whatever order their input has (the engine is documented to preserve order through every operation but
+    sorts, which are stable), so `ordered` there means "the exact row sequence is determined".
+    """
+    if memo is not None and id(prog) in memo:
+        return memo[id(prog)]
+    k = prog[0]
+    eng = engine_of(prog, leaves)
+    if eng == 0 and k != "xfer":
+        # the operands of an SQL node are evaluated with this function too (they may contain transfers)
+        res = _ev_sql_node(prog, leaves, marker_sort, memo, stats)
+    else:
+        res = _ev_iter_node(prog, leaves, marker_sort, memo, stats)
+    if memo is not None:
+        memo[id(prog)] = res
+    return res
+
+
+def _ev_sql_node(prog, leaves, marker_sort, memo, stats):
+    # ev_bag on a shallow program whose operands are pre-evaluated results
+    subs = {id(c): ev_multi(c, leaves, marker_sort, memo, stats) for c in children(prog)}
+    local = dict(subs)
+    return _bag_step(prog, leaves, marker_sort, local, stats)
+
+
+def _bag_step(prog, leaves, marker_sort, memo, stats):
+    """One step of ev_bag with the children's results supplied through memo."""
+    saved = memo.pop(id(prog), None)
+    try:
+        return ev_bag(prog, leaves, marker_sort, memo, stats)
+    finally:
+        if saved is not None:
+            memo[id(prog)] = saved
+
+
+def _ev_iter_node(prog, leaves, marker_sort, memo, stats):
+    k = prog[0]
+
+    def sub(i=1):
+        return ev_multi(prog[i], leaves, marker_sort, memo, stats)
+
+    if k == "leaf":
+        rows = leaf_rows(leaves[prog[1]])
+        return Res(rows, True, True, len(rows))
+    if k == "xfer":
+        s = sub()
+        if prog[2] == 0:
+            return Res(s.rows, False, s.det, s.count)
+        return Res(s.rows, s.ordered, s.det, s.count, (), s.oterms)
+    if k == "mat":
+        s = sub()
+        return Res(s.rows, s.ordered, s.det, s.count, (), s.oterms)
+    if k == "calc":
+        s = sub()
+        return Res([{**r, prog[2]: eval_e(prog[3], r)} for r in s.rows], s.ordered, s.det, s.count)
+    if k == "sel":
+        s = sub()
+        rows = [r for r in s.rows if eval_p(prog[2], r)]
+        return Res(rows, s.ordered, s.det, len(rows) if s.det else None)
+    if k == "proj":
+        s = sub()
+        return Res([{t: r[t] for t in prog[2]} for r in s.rows], s.ordered, s.det, s.count)
+    if k == "dedup":
+        s = sub()
+        rows = dedup_rows(s.rows, s.det)
+        return Res(rows, s.ordered, s.det, len(rows) if s.det else None)
+    if k == "sort":
+        s = sub()
+        rows = sort_rows(s.rows, prog[2])
+        ordered = s.det and (s.ordered or is_total(prog[2], rows))
+        return Res(rows, ordered, s.det, s.count, (), tuple(prog[2]) if ordered else ())
+    if k == "slice":
+        s = sub()
+        start, stop = prog[2], prog[3]
+        if not s.det:
+            return Res(s.rows, False, False, None if s.count is None else _window(s.count, start, stop))
+        n = len(s.rows)
+        w = _window(n, start, stop)
+        if s.ordered:
+            return Res(s.rows[start:stop], True, True, w)
+        if w == n or w == 0 or all(row_key(r) == row_key(s.rows[0]) for r in s.rows):
+            return Res(s.rows[start:stop], False, True, w)
+        return Res(s.rows, False, False, w)
+    if k == "chain":
+        a, b = sub(1), sub(2)
+        det = a.det and b.det
+        cnt = None if a.count is None or b.count is None else a.count + b.count
+        return Res(a.rows + b.rows, a.ordered and b.ordered and det, det, cnt)
+    if k in ("join", "joinx"):
+        a, b = sub(1), sub(2)
+        common = prog[4] if k == "joinx" else natural_common(schema(prog[1], leaves), schema(prog[2], leaves))
+        rows = join_rows(a.rows, b.rows, common, prog[3])
+        det = a.det and b.det
+        return Res(rows, False, det, len(rows) if det else None)
+    raise AssertionError(prog)
+
+
 def multiset(rows):
     out = {}
     for r in rows:
